@@ -96,6 +96,7 @@ type FuncContract struct {
 	NoSafety bool
 	RetLets  map[int]map[string]*SExpr
 	Reveal   []string
+	Only     []string // when set: only obligations whose name (after #) has one of these prefixes are generated; the rest is reported as not covered
 	Modifies []string // heap fields ("Type.field") that may change on pre-existing objects
 	Dead     []string // cover obligations expected to be unreachable under the precondition (suffix match)
 	Free     []string // parameters exempt from the exact-mode domain assumption (may hold +-Inf)
@@ -112,7 +113,7 @@ var directiveKW = map[string]bool{
 	"spec": true, "lemma": true, "axiom": true, "func": true, "requires": true, "ensures": true,
 	"loop": true, "call": true, "assigns": true, "pure": true, "trusted": true, "arith": true,
 	"decreases": true, "induction": true, "use": true, "props": true, "ret": true, "entry": true,
-	"unfold": true, "iter": true, "ghost": true, "opaque": true, "nosafety": true, "have": true, "free": true, "dead": true, "modifies": true, "reveal": true, "proto": true,
+	"unfold": true, "iter": true, "ghost": true, "opaque": true, "nosafety": true, "have": true, "free": true, "dead": true, "modifies": true, "reveal": true, "proto": true, "only": true,
 }
 
 // collectAnnotations returns the //@ lines of a file, with positions.
@@ -326,6 +327,8 @@ func (cs *Contracts) parseFile(pkg string, lines []string, where string) {
 				panic(w + ": have only in lemmas")
 			}
 			curL.Haves = append(curL.Haves, parseClause(it.text, w))
+		case "only":
+			curF.Only = append(curF.Only, strings.FieldsFunc(it.text, func(r rune) bool { return r == ',' || r == ' ' })...)
 		case "proto":
 			rest := strings.TrimSpace(it.text)
 			target := ""
